@@ -99,7 +99,7 @@ class Models:
         return r
 
     def uf1(self, name, x, st, axioms=()):
-        f = self.e.uf(name, R, R)
+        f = self.e.uf('libm.' + name, R, R)      # not the solvers' built-in transcendental symbols: plain uninterpreted functions
         t = f(x)
         self.used('std::%s: uninterpreted with the axioms of DESIGN section 8' % name)
         return t
@@ -140,7 +140,7 @@ class Models:
             x = real(A(0))
             t = self.uf1(name, x, st)
             if name == 'cbrt': st.pc.append(t * t * t == x); st.pc.append((t >= 0) == (x >= 0))
-            if name == 'exp': st.pc.append(t > 0); st.pc.append(self.e.uf('log', R, R)(t) == x)
+            if name == 'exp': st.pc.append(t > 0); st.pc.append(self.e.uf('libm.log', R, R)(t) == x)
             if name == 'acos': st.pc.append(z3.And(t >= 0, t <= self.pi()))
             if name in ('cos', 'sin'): st.pc.append(z3.And(t >= -1, t <= 1))
             return t
@@ -151,7 +151,7 @@ class Models:
                 if ys.numerator_as_long() == 2 * ys.denominator_as_long(): return x * x
                 if ys.numerator_as_long() == 3 * ys.denominator_as_long(): return x * x * x
                 if ys.numerator_as_long() == ys.denominator_as_long(): return x
-            f = self.e.uf('pow', R, R, R)
+            f = self.e.uf('libm.pow', R, R, R)
             return f(x, y)
         if name in ('isfinite',):
             A(0); self.used('std::isfinite: true on reals (DESIGN 4.3-4)'); return z3.BoolVal(True)
@@ -935,6 +935,25 @@ class Models:
             return Iter(obj.ref, n2, obj.ty)
         raise Unsupported('vector::erase form at %s' % e.where(n, fr))
 
+    def m_vector_insert(self, st, obj, bt, args, n, fr):
+        e = self.e
+        pos = e.rv(args[0], st, fr)
+        ln = e.vec_len(st, obj.ref)
+        if len(args) == 2 and isinstance(pos, Iter):
+            v = e.rv(args[1], st, fr)
+            if isinstance(v, Rec) and v.t == 'initlist':
+                if e.safety_on('bounds') or True:
+                    # only insertion at the end is modelled: anything else would shift elements
+                    if not z3.is_true(z3.simplify(pos.idx == ln)):
+                        e.oblige(st, 'safety:insert-position-is-end', pos.idx == ln, where=e.where(n, fr))
+                ety = obj.ty.args[0]
+                items = [v.f[str(i)] for i in range(len(v.f))]
+                for i, it in enumerate(items): e.vec_write(st, obj.ref, ln + i, ety, it)
+                e.hwrite(st, 'vec.len', obj.ref, ln + len(items))
+                self.bump_epoch(st, obj.ref)
+                return Iter(obj.ref, ln, obj.ty)
+        raise Unsupported('vector::insert form at %s' % e.where(n, fr))
+
     def m_vector_begin(self, st, obj, bt, args, n, fr): return Iter(obj.ref, z3.IntVal(0), obj.ty)
     def m_vector_end(self, st, obj, bt, args, n, fr): return Iter(obj.ref, self.e.vec_len(st, obj.ref), obj.ty)
     m_vector_cbegin = m_vector_begin
@@ -1000,6 +1019,10 @@ class Models:
         e = self.e
         inner = n['inner']
         if e.stop_at_loop is not None and e.stop_at_loop == (fr.fn['id'], e.loop_ordinal(n, fr)):
+            rv0 = inner[1]['inner'][0]
+            rinit0 = [c for c in rv0.get('inner', []) if 'kind' in c][0]
+            try: st.ghost['stopped_container'] = e.ev(rinit0, st, fr)
+            except Unsupported: pass
             e.stopped_states.append(st)
             return []
         # [init?, range decl, begin decl, end decl, cond, inc, loop var decl, body]
